@@ -586,8 +586,20 @@ Fixpoint known_optwhere_from (bound optvars : list N) (seen_opt : bool) (cs : li
 
 Definition known_optwhere (s : squery) : bool := known_optwhere_from [] [] false (q_clauses s).
 
+(* MATCH ... UNWIND ... WITH: an UNWIND directly after a MATCH and directly before a WITH is
+   applied after the WITH barrier, so its variable reads as null in the WITH *)
+Fixpoint known_match_unwind_with (cs : list clause) : bool :=
+  match cs with
+  | [] => false
+  | c :: rest =>
+      (match c, rest with
+       | CMatch _ _ _, CUnwind _ _ :: CWith _ _ :: _ => true
+       | _, _ => false
+       end) || known_match_unwind_with rest
+  end.
+
 Definition Known_syntactic (q : query) : bool :=
-  existsb (fun s => known_varlen s || known_optwhere s) (q_parts q).
+  existsb (fun s => known_varlen s || known_optwhere s || known_match_unwind_with (q_clauses s)) (q_parts q).
 
 Definition check_with (cf : cfg) (c : case) : bool :=
   match c_obs c with
